@@ -25,7 +25,21 @@ class Guards:
         self.replay = R.replay_routine()
         self.nested = {}      # Func -> kind
         from ..astpaths import cond_paths, isinstance_fact
-        for conds, st in cond_paths(self.replay.node.body):
+        # the dispatch over record classes sits in the replay routine or in
+        # a private helper it calls per suboperation
+        disp = [self.replay]
+        for c in prog.calls_in(self.replay):
+            for g in prog.resolve_call(c, self.replay):
+                if isinstance(g, Func) and g.cls == R.builder and \
+                        not g.is_public and g is not self.replay and \
+                        any(isinstance(x, ast.Call) and isinstance(
+                            x.func, ast.Name) and x.func.id == 'isinstance'
+                            for x in ast.walk(g.node)) and g not in disp:
+                    disp.append(g)
+        self.dispatchers = disp
+        all_paths = [(d, conds, st) for d in disp
+                     for conds, st in cond_paths(d.node.body)]
+        for dfunc, conds, st in all_paths:
             idx = None
             cls = None
             for i, (t, pol) in enumerate(conds):
@@ -47,9 +61,9 @@ class Guards:
             for e in scope:
                 for c in ast.walk(e):
                     if isinstance(c, ast.Call):
-                        for g in prog.resolve_call(c, self.replay):
+                        for g in prog.resolve_call(c, dfunc):
                             if isinstance(g, Func) and g.cls == R.builder \
-                                    and g != self.replay:
+                                    and g not in disp:
                                 self.nested[g] = kind
         self.top = {}
         cands = list(R.deciders())
@@ -64,7 +78,7 @@ class Guards:
                     for g in prog.resolve_call(c, f)):
                 cands.append(f)
         for d in cands:
-            if d in self.nested or d == self.replay:
+            if d in self.nested or d in disp:
                 continue
             getters = set()
             for c in prog.calls_in(d):
@@ -125,12 +139,32 @@ class Guards:
                            for c in prog.calls_in(g)
                            for h in prog.resolve_call(c, g))
 
+            def key_tester(g):
+                # a thin wrapper around the "is this key taken" tests
+                return g.name not in ('has_norm_cased_file',
+                                      'has_subbuild') and any(
+                    isinstance(h, Func) and h.cls == R.cache and h.name in (
+                        'has_norm_cased_file', 'has_subbuild')
+                    for c in prog.calls_in(g)
+                    for h in prog.resolve_call(c, g)) and \
+                    len(list(ast.walk(g.node))) < 80
+
+            def tests_registry(g):
+                # a helper that answers whether a name is a registered
+                # operation (``name in OPERATIONS``)
+                return any(isinstance(n, ast.Compare) and any(
+                    isinstance(c, ast.Attribute) and c.attr == 'OPERATIONS'
+                    for c in n.comparators) for n in ast.walk(g.node)) and \
+                    len(list(ast.walk(g.node))) < 60
+
             def inline(g):
                 if g in stop or g.is_ctor_call:
                     return False
                 if g.cls == R.builder:
                     return not g.is_public
-                return g.cls == R.cache and compares(g)
+                if tests_registry(g):
+                    return True
+                return g.cls == R.cache and (compares(g) or key_tester(g))
             self._sg[d.qualname] = self.ctx.E.super(d, inline)
         return self._sg[d.qualname]
 
